@@ -18,6 +18,19 @@
 //!              (RGB<->RGB, gray<->gray, gray->RGB->gray)
 //!   same depth equal maxima in all channels (RGB<->BGR): channels unchanged
 //!   binary     gray -> binary: On iff 2*luma >= MAX+1; RGB -> binary: On iff Gray8::from(c).luma() >= 128
+//!              (this one takes the luma from the library, so it checks the threshold, not the luma)
+//!   luma       RGB -> gray / binary against an INDEPENDENT exact ITU-R BT.601 luma, computed here in
+//!              integers and never through the library: r8 g8 b8 = each source channel scaled to 0..=255
+//!              to the nearest integer (never a tie), S = 299 r8 + 587 g8 + 114 b8 = 1000 x the exact luma Y.
+//!              RGB -> Gray8: |out - Y| <= 1;  RGB -> Gray4/Gray2 (T = 15/3): |out - Y*T/255| <= 1/2 + T/255
+//!              (the result is the nearest target value of an 8-bit luma that is within 1 of Y);
+//!              RGB -> BinaryColor: On required for Y >= 129, Off required for Y < 127 (one step around the
+//!              middle 128 of 0..=255 is left open, and counted).
+//!              Why 1: the code's 8-bit luma is (77 r8 + 150 g8 + 29 b8 + 128) / 256, i.e. the BT.601
+//!              coefficients rounded to 1/256 (error of the weighted sum <= 255 * 456/256000 = 0.4542) and one
+//!              rounding to an integer (<= 1/2): 0.9542 < 1, proved for the model as `C13.luma_close_bt601`,
+//!              `rgb_gray_close`, `rgb_gray_within`, `rgb_binary_close`. Exchanged or changed weights (e.g.
+//!              77 <-> 150: pure red gives 149 instead of 76.2) fail this.
 use crate::common::*;
 use crate::m_color::{CT, GRAY_TYPES, RGB_TYPES};
 use embedded_graphics::pixelcolor::*;
@@ -57,6 +70,17 @@ fn kind_code<A: CT, B: CT>() -> u32 {
 fn nearest(v: u8, f: u8, t: u8, out: u8) -> bool {
     let (v, f, t, out) = (v as i64, f as i64, t as i64, out as i64);
     (2 * f * out - 2 * v * t).abs() <= f
+}
+
+/// channel value `v` of maximum `m` scaled to 0..=255: the integer nearest to v*255/m
+/// (2*v*255 is even and m is odd, so v*255/m is never half way between two integers)
+fn scale8(v: u8, m: u8) -> i64 {
+    (2 * v as i64 * 255 + m as i64) / (2 * m as i64)
+}
+
+/// 1000 x the exact BT.601 luma 0.299 R + 0.587 G + 0.114 B of the channels scaled to 8 bits
+fn bt601_milli(ch: &[u8], max: &[u8]) -> i64 {
+    299 * scale8(ch[0], max[0]) + 587 * scale8(ch[1], max[1]) + 114 * scale8(ch[2], max[2])
 }
 
 fn op_conv<A, B>(x: u8, y: u8, z: u8, ctx: &mut Ctx) -> String
@@ -103,6 +127,25 @@ where
                 });
             }
         }
+        3 => {
+            // RGB -> gray: close to the exact BT.601 luma of the source, scaled to the target's range
+            let s1000 = bt601_milli(&sch, &fmax);
+            let (t, out) = (tmax[0] as i64, dch[0] as i64);
+            let ok = if t == 255 {
+                (1000 * out - s1000).abs() <= 1000
+            } else {
+                (510_000 * out - 2 * t * s1000).abs() <= 255_000 + 2000 * t
+            };
+            ctx.expect(ok, "C13:rgb-gray-not-bt601", || {
+                format!("{}->{} {:?}: luma {} of {}, exact BT.601 luma of the 8-bit channels {}/1000", A::NAME, B::NAME, src, out, t, s1000)
+            });
+            // how many results are the value nearest to the exact scaled luma (the others are one off)
+            if (510_000 * out - 2 * t * s1000).abs() <= 255_000 {
+                ctx.count("rgb-gray:nearest-to-exact-luma");
+            } else {
+                ctx.count("rgb-gray:next-to-nearest");
+            }
+        }
         _ => {}
     }
     // same depth (RGB <-> BGR, equal maxima): channels kept
@@ -147,6 +190,18 @@ where
         let g: Gray8 = src.into();
         let on = g.luma() >= 128;
         ctx.expect((dch[0] == 1) == on, "C13:rgb-binary-threshold", || format!("{} {:?} luma {} -> {:?}", A::NAME, src, g.luma(), dst));
+        // independent of the library's luma: On exactly for the upper half of the luma range, the luma
+        // being the exact BT.601 one to within one 8-bit step
+        let s1000 = bt601_milli(&sch, &fmax);
+        if s1000 >= 129_000 {
+            ctx.count("rgb-binary:exact-luma-upper-half");
+            ctx.expect(dch[0] == 1, "C13:rgb-binary-not-bt601-half", || format!("{} {:?} exact luma {}/1000 -> {:?}", A::NAME, src, s1000, dst));
+        } else if s1000 < 127_000 {
+            ctx.count("rgb-binary:exact-luma-lower-half");
+            ctx.expect(dch[0] == 0, "C13:rgb-binary-not-bt601-half", || format!("{} {:?} exact luma {}/1000 -> {:?}", A::NAME, src, s1000, dst));
+        } else {
+            ctx.count("rgb-binary:exact-luma-within-one-step-of-128");
+        }
     }
     format!("{}", dst.raw())
 }
